@@ -143,6 +143,22 @@ def make_model(case):
     S = cm.build(case["seed"], case["ngrids"], case["nextra"], case["length"], case["kspread"],
                  case["offsets"], case["f1"])
     mat = [int(g) for g in case["bgrids"]]
+    if case.get("adapter") and len(mat) >= 2:
+        # the last boundary grid becomes a massless adapter: everything that was attached to it is attached to the
+        # first boundary grid instead, and it hangs on that grid alone through one joint.  Its columns of the CB mass
+        # matrix are exactly zero, its stiffness is not (cbcheck reduces such DOF out statically)
+        ga, g0 = mat[-1], mat[0]
+        edges, kad = [], None
+        for i_, j_, ke_ in S.edges:
+            if ga in (i_, j_) and kad is None:
+                kad = ke_
+            i2, j2 = (g0 if i_ == ga else i_), (g0 if j_ == ga else j_)
+            if i2 != j2:
+                edges.append((i2, j2, ke_))
+        edges.append((g0, ga, kad))
+        masses = list(S.masses)
+        masses[ga] = (0.0, np.zeros((3, 3)), np.zeros(3))
+        S = cm.Structure(S.xyz, S.frames, edges, masses)
     pins = {}
     for j, g in enumerate(mat):
         c = case.get("cout", [0] * len(mat))[j]
@@ -375,6 +391,8 @@ def oracle_cbcheck(case, R):
     Mrig_g = Sn.rigid_mass(P_g)
     ms_exp = Nrm.T @ Mrig_g @ Nrm
     # ---- label
+    if case.get("adapter") and nbg >= 2:
+        R.label("massless_adapter_grid")
     R.label(f"nbg{nbg}", "layout:" + (case["layout"] if nq else "noq"), "bref:" + bkind,
             "rb_norm:" + str(rb_norm), "uref:" + ur["kind"], "reorder" if reorder else "noreorder",
             "conv:" + ("none" if conv is None else conv if isinstance(conv, str) else "pair"),
@@ -764,6 +782,7 @@ def cb_cases(draw, variant="valid"):
     else:
         case["bref"] = {"kind": "grid", "k": draw(st.integers(0, nbg - 1))}
     case["bref_order"] = draw(st.one_of(st.none(), st.integers(0, 10 ** 6)))
+    case["adapter"] = nbg >= 2 and variant == "valid" and draw(st.integers(0, 4)) == 0
     uk = draw(st.sampled_from(["grid", "xyz", "default"]))
     case["uref"] = ({"kind": "grid", "k": draw(st.integers(0, nbg - 1))} if uk == "grid" else
                     {"kind": "xyz", "xyz": [draw(_f(-2, 2)), draw(_f(-2, 2)), draw(_f(-2, 2))]} if uk == "xyz"
